@@ -2,6 +2,7 @@ package sym
 
 import (
 	"fmt"
+	"go/types"
 
 	"golang.org/x/tools/go/ssa"
 )
@@ -260,4 +261,120 @@ func (ex *Exec) closeChan(g *G, ch *ChanObj) {
 		ex.wake(w.g)
 	}
 	ch.recvq = nil
+}
+
+// selectOp executes a select statement in a restricted form: the FIRST case that can
+// proceed right now is taken (Go picks among the ready cases pseudo-randomly: only
+// this one choice is explored); if none can, a select with a default case takes it,
+// and a blocking select is reported as unsupported (a goroutine cannot be parked on
+// several channels).
+func (ex *Exec) selectOp(g *G, f *Frame, x *ssa.Select) {
+	if ex.spec > 0 {
+		panic(mergeAbort{"select in arm"})
+	}
+	res := x.Type().(*types.Tuple)
+	out := make(Tuple, res.Len())
+	for i := range out {
+		out[i] = ex.zero(res.At(i).Type())
+	}
+	// slot of the received value of state i in the result tuple
+	slot := map[int]int{}
+	k := 2
+	for i, st := range x.States {
+		if st.Dir == types.RecvOnly {
+			slot[i] = k
+			k++
+		}
+	}
+	chosen := -1
+	for i, st := range x.States {
+		ch, _ := ex.reg(f, st.Chan).(*ChanObj)
+		if ch == nil {
+			continue // a nil channel is never ready
+		}
+		if st.Dir == types.RecvOnly {
+			if len(ch.buf) > 0 || len(ch.sendq) > 0 || ch.closed {
+				chosen = i
+			}
+		} else if ch.closed || len(ch.recvq) > 0 || len(ch.buf) < ch.cap {
+			chosen = i
+		}
+		if chosen >= 0 {
+			break
+		}
+	}
+	if chosen < 0 {
+		if x.Blocking {
+			panic(unsupported{"blocking select with no ready case"})
+		}
+		out[0] = mkInt(-1, 64, false)
+		ex.setReg(f, x, out)
+		f.pc++
+		return
+	}
+	ex.Info["select"] = "first ready case taken"
+	st := x.States[chosen]
+	ch := ex.reg(f, st.Chan).(*ChanObj)
+	out[0] = mkInt(int64(chosen), 64, false)
+	if st.Dir == types.RecvOnly {
+		switch {
+		case len(ch.buf) > 0:
+			ev := ex.newEvent(g, "recv", ch, nil)
+			ev.seq = ch.nRecv
+			ch.nRecv++
+			ch.recvEvs = append(ch.recvEvs, ev)
+			v := ch.buf[0]
+			sev := ch.bufEv[0]
+			ch.buf = ch.buf[1:]
+			ch.bufEv = ch.bufEv[1:]
+			ex.addEdge(sev, ev)
+			if len(ch.sendq) > 0 {
+				w := ch.sendq[0]
+				ch.sendq = ch.sendq[1:]
+				ch.buf = append(ch.buf, w.val)
+				ch.bufEv = append(ch.bufEv, w.ev)
+				ex.addEdge(ev, w.ev)
+				w.g.frames[len(w.g.frames)-1].pc++
+				ex.wake(w.g)
+			}
+			out[1], out[slot[chosen]] = Bool{C: true}, v
+		case len(ch.sendq) > 0:
+			ev := ex.newEvent(g, "recv", ch, nil)
+			ev.seq = ch.nRecv
+			ch.nRecv++
+			ch.recvEvs = append(ch.recvEvs, ev)
+			w := ch.sendq[0]
+			ch.sendq = ch.sendq[1:]
+			ex.rdv = append(ex.rdv, [2]int{w.ev.id, ev.id})
+			w.g.frames[len(w.g.frames)-1].pc++
+			ex.wake(w.g)
+			out[1], out[slot[chosen]] = Bool{C: true}, w.val
+		default: // closed
+			ev := ex.newEvent(g, "recvclosed", ch, nil)
+			ex.addEdge(ch.closeEv, ev)
+			out[1] = Bool{C: false}
+		}
+	} else {
+		if ch.closed {
+			panic(goPanic{"send on closed channel"})
+		}
+		v := copyVal(ex.reg(f, st.Send))
+		ev := ex.newEvent(g, "send", ch, nil)
+		ev.seq = ch.nSend
+		ch.nSend++
+		ch.sendEvs = append(ch.sendEvs, ev)
+		if ch.cap > 0 && ev.seq-ch.cap >= 0 && ev.seq-ch.cap < len(ch.recvEvs) {
+			ex.addEdge(ch.recvEvs[ev.seq-ch.cap], ev)
+		}
+		if len(ch.recvq) > 0 {
+			w := ch.recvq[0]
+			ch.recvq = ch.recvq[1:]
+			ex.deliver(w, v, true, ev, ch)
+		} else {
+			ch.buf = append(ch.buf, v)
+			ch.bufEv = append(ch.bufEv, ev)
+		}
+	}
+	ex.setReg(f, x, out)
+	f.pc++
 }
